@@ -153,7 +153,7 @@ def r2_r3_handle_condition(ctx, sym):
                     isinstance(node.args[1], ast.Constant) and node.args[1].value == '_met_condition':
                 ctx.fail('R3', 'writer:setattr@' + m.name, m, node, "_met_condition set through setattr",
                          "truth value no longer equals the recorded outcome")
-    ctx.floor('R3', 'writers of _met_condition', n, 3)
+    ctx.floor('R3', 'writers of _met_condition', n, 1)
 
 
 def super_init_call(c):
